@@ -16,8 +16,12 @@ from ..absint import Abort
 VERIF = os.path.abspath(os.path.join(os.path.dirname(__file__), '..', '..', '..'))
 
 # (core config, serde config) pairs; the primary pair (core-full, serde-full) is what C01..C19 themselves analyse
-QUICK = [('core-none', 'serde-none'), ('core-alloc', 'serde-alloc')]
-THOROUGH = [('core-none', 'serde-none'), ('core-half', 'serde-half'), ('core-alloc', 'serde-alloc'), ('core-alloc-half', None), ('core-std', 'serde-std')]
+QUICK = [('core-none', 'serde-none'), ('core-alloc', 'serde-alloc'), ('core-alloc-t32', None)]
+THOROUGH = [('core-none', 'serde-none'), ('core-half', 'serde-half'), ('core-alloc', 'serde-alloc'), ('core-alloc-half', None), ('core-std', 'serde-std'), ('core-alloc-t32', None)]
+# the 32-bit twin (target_pointer_width = "32", atomic32; thumbv7m-none-eabi, core and alloc type-checked from rust-src): the rule sets
+# whose references do not depend on the pointer width. C04 / C13 / C06 / C07 / C11 are not re-run there: their references describe
+# lengths up to 2^64 (a 32-bit build legitimately answers Overflow above 2^32) and the may-panic scan of a debug-profile core differs.
+T32_RULES = ('C03', 'C05', 'C12', 'C01')
 SUBRULES = ['C03', 'C04', 'C05', 'C12', 'C01', 'C13', 'C02', 'C17']
 SERDE_RULES = ('C17', 'C02')
 
@@ -118,6 +122,8 @@ def table_identity(ctx, pairs, good):
                 if pid in ('C17',) and not serde:
                     continue
                 if pid == 'C02' and not serde:
+                    continue
+                if core.endswith('-t32') and pid not in T32_RULES:
                     continue
                 sub = SubCtx(ctx, label, pid, known, floors)
                 mod = importlib.import_module('mcv.rules.' + pid.lower())
@@ -491,12 +497,15 @@ def run(ctx):
     pairs = QUICK if ctx.tier == 'quick' else THOROUGH
     good = compile_matrix(ctx, pairs)
     table_identity(ctx, pairs, good)
-    impl_identity(ctx, pairs, good)
-    accessor_identity(ctx, pairs, good)
+    # the cross-configuration comparisons hold between feature sets of one target; the 32-bit twin differs from the host build
+    # by design (u32 / i32 heads for usize / isize, Overflow above 2^32): it is decided by CFG-TABLES against the width-aware references
+    same_target = [p for p in pairs if not p[0].endswith('-t32')]
+    impl_identity(ctx, same_target, good)
+    accessor_identity(ctx, same_target, good)
     cfg_census(ctx)
     width_twins(ctx)
     from . import c06
     reset_caches()
     c06.twins_only(ctx)
     return ('Behavioural identity is decided as identity of the extracted tables (scalar encoders/decoders/accessors, integer conversions, floats, built-in impl summaries, sinks, bridge methods, panic census) in each configuration; '
-            'derive expansions (C07-C10) and the I/O crate are configuration-independent except through these. target_pointer_width=32 twins cannot be compiled here.')
+            'derive expansions (C07-C10) and the I/O crate are configuration-independent except through these. The target_pointer_width = "32" / atomic32 arms are type-checked for thumbv7m-none-eabi (core and alloc from rust-src) and the width rules of C01, C03, C05, C12 are re-run on that MIR with 32-bit usize / isize.')
